@@ -166,9 +166,20 @@ UNITS += [
         // in general entries are only dropped, never invented, and each section only keeps its own packs
         /*@only_drops_entries*/ r.0.packs@.len() <= indexfile.packs@.len() && r.0.packs_to_delete@.len() <= indexfile.packs_to_delete@.len(),
         /*@unchanged_means_identical*/ !r.1 ==> r.0.packs@ == indexfile.packs@ && r.0.packs_to_delete@ == indexfile.packs_to_delete@,
+        // a pack queued for re-reading its header is queued with the REAL size of its file (the listing's), which is where
+        // PackHeader::from_file looks for the trailer -- and it is one of the listed packs
+        /*@queued_with_the_real_file_size*/ old(self).packs_to_read@.len() <= final(self).packs_to_read@.len()
+            && (forall|k: int| 0 <= k < old(self).packs_to_read@.len() ==> final(self).packs_to_read@[k] == old(self).packs_to_read@[k])
+            && forall|k: int| old(self).packs_to_read@.len() <= k < final(self).packs_to_read@.len() ==>
+                old(self).packs@.dom().contains((#[trigger] final(self).packs_to_read@[k]).0) && final(self).packs_to_read@[k].2 == old(self).packs@[final(self).packs_to_read@[k].0],
 """,
          loops={1: """
             invariant
+                old(self).packs_to_read@.len() <= self.packs_to_read@.len(),
+                forall|k: int| 0 <= k < old(self).packs_to_read@.len() ==> self.packs_to_read@[k] == old(self).packs_to_read@[k],
+                forall|k: int| old(self).packs_to_read@.len() <= k < self.packs_to_read@.len() ==>
+                    pk0.dom().contains((#[trigger] self.packs_to_read@[k]).0) && self.packs_to_read@[k].2 == pk0[self.packs_to_read@[k].0],
+                pk0 == old(self).packs@,
                 vall@ == all_packs_spec(f0), f0 == indexfile,
                 // the packs still in the listing are those of the start minus the ids seen so far
                 forall|id: PackId| #![trigger self.packs@.dom().contains(id)] self.packs@.dom().contains(id) ==> pk0.dom().contains(id) && self.packs@[id] == pk0[id],
